@@ -393,13 +393,13 @@ theorem saslErr_cmd_ne {c : Bytes} (hc : c = c902 ∨ c = c904 ∨ c = c905 ∨ 
     c ≠ PRIVMSG ∧ c ≠ NOTICE ∧ c ≠ cERROR := by
   rcases hc with h | h | h | h | h <;> subst h <;> decide
 
-theorem stepEvent_of (cfg : Cfg) (r : Run) (e : Event) (cs' : CState) (outs : List Out)
+theorem stepEvent_of (cfg : Cfg) (r : Run) (e : Event) (cs' : CState) (outs : List Out) (isURL : Bytes → Bool)
     (h : handleEvent cfg r.cs e [] [] = .ok (cs', outs)) :
-    stepEvent cfg r e = .ok
-      (if e.command = cERROR && (applyOuts { r with cs := cs' } outs).1.ended = .running
-        then { (applyOuts { r with cs := cs' } outs).1 with ended := .errEvent e.last }
-        else (applyOuts { r with cs := cs' } outs).1,
-       (applyOuts { r with cs := cs' } outs).2) := by
+    stepEvent cfg r e [] [] isURL = .ok
+      (if e.command = cERROR && (applyOuts cfg isURL { r with cs := cs' } outs).1.ended = .running
+        then { (applyOuts cfg isURL { r with cs := cs' } outs).1 with ended := .errEvent e.last }
+        else (applyOuts cfg isURL { r with cs := cs' } outs).1,
+       (applyOuts cfg isURL { r with cs := cs' } outs).2) := by
   unfold stepEvent
   simp [h, bind, Except.bind]
 
@@ -411,10 +411,10 @@ theorem sasl_failure_ends_connection (cfg : Cfg) (r : Run) (line : Bytes) (e : E
     (hc : e.command = c902 ∨ e.command = c904 ∨ e.command = c905 ∨ e.command = c906 ∨ e.command = c908) :
     ∃ r', stepLine cfg r line = .ok r' ∧ r'.ended = .errEvent (sClosing ++ e.last) ∧ r'.written = r.written := by
   obtain ⟨h1, h2, h3⟩ := saslErr_cmd_ne hc
-  have hE1 := stepEvent_of cfg r e _ _
+  have hE1 := stepEvent_of cfg r e _ _ (fun _ => true)
     (handleEvent_of_cmd cfg r.cs e [] [] h1 h2 _ _ (sasl_failure_injects_error cfg _ e m hs ht hc))
   simp only [applyOuts, h3, decide_false, Bool.false_and, Bool.false_eq_true, if_false, hr] at hE1
-  have hE2 := stepEvent_of cfg { r with cs := tagged cfg r.cs e } (errorEvent (sClosing ++ e.last)) _ _
+  have hE2 := stepEvent_of cfg { r with cs := tagged cfg r.cs e } (errorEvent (sClosing ++ e.last)) _ _ (fun _ => true)
     (handleEvent_of_cmd cfg _ _ [] [] (by show cERROR ≠ PRIVMSG; decide) (by show cERROR ≠ NOTICE; decide) _ _
       (handleCommand_error cfg _ _ rfl))
   have hl : (errorEvent (sClosing ++ e.last)).last = sClosing ++ e.last := rfl
